@@ -109,8 +109,10 @@ def main():
         out["input"] = {p: (v.tolist() if isinstance(v, np.ndarray) else repr(v)) for p, v in args.items()}
         # contract clauses may name what the function's own module names (enum classes, import aliases such as `metrics`)
         modns = {k_: v_ for k_, v_ in vars(importlib.import_module(mod)).items() if not k_.startswith("__")}
-        failed, _ = speceval.check_clauses(c.get("requires", []), dict(modns, **args))
-        if failed:
+        failed, skipped_req = speceval.check_clauses(c.get("requires", []), dict(modns, **args))
+        if skipped_req and not failed:
+            out["outcome"] = "%d precondition clause(s) cannot be evaluated on a concrete input (ghost state / dictionaries): the counter-model is not counted as a failing input" % skipped_req
+        elif failed:
             out["outcome"] = "counter-model is not a valid input after conversion to doubles (requires fails: %s)" % failed[0]
         else:
             old = copy.deepcopy(args)
